@@ -11,7 +11,7 @@
    (d) ms_cleanup_exact : Cleanup(r) sets the round to r and drops exactly the entries with
        entry_round + gc_depth <= r. *)
 From Coq Require Import List NArith Lia Bool.
-From HS Require Import MempoolSyncDefs.
+From HS Require Import Guards MempoolSyncDefs.
 Import ListNotations.
 Open Scope N_scope.
 
@@ -127,7 +127,7 @@ Section Thms.
     ms_round (fst (step s (MCleanup r))) = r /\
     (forall e, In e (ms_pending (fst (step s (MCleanup r)))) <-> In e (ms_pending s) /\ ~ (pe_round e + gc_depth <= r)).
   Proof.
-    cbn [msstep]. unfold ms_gc_skip, ms_gc_keep. destruct (N.ltb_spec r gc_depth) as [Hlt|Hge]; cbn [fst snd ms_round ms_pending].
+    cbn [msstep]. unfold ms_gc_skip, ms_gc_keep, g_ms_gc_skip, g_ms_gc_keep, g_ms_gc_round. destruct (N.ltb_spec r gc_depth) as [Hlt|Hge]; cbn [fst snd ms_round ms_pending].
     - split; [reflexivity|]. split; [reflexivity|]. intro e. split; [intro H; split; [exact H|lia]|tauto].
     - split; [reflexivity|]. split; [reflexivity|]. intro e. rewrite filter_In, N.ltb_lt.
       split; intros [H1 H2]; (split; [exact H1|lia]).
@@ -138,7 +138,7 @@ Section Thms.
   Lemma ms_cleanup_filter s r :
     ms_pending (fst (step s (MCleanup r))) = filter (fun e => negb (pe_round e + gc_depth <=? r)) (ms_pending s).
   Proof.
-    cbn [msstep]. unfold ms_gc_skip, ms_gc_keep. destruct (N.ltb_spec r gc_depth) as [Hlt|Hge]; cbn [fst ms_pending].
+    cbn [msstep]. unfold ms_gc_skip, ms_gc_keep, g_ms_gc_skip, g_ms_gc_keep, g_ms_gc_round. destruct (N.ltb_spec r gc_depth) as [Hlt|Hge]; cbn [fst ms_pending].
     - symmetry. apply filter_all_true. intro e. apply negb_true_iff, N.leb_gt. lia.
     - apply filter_ext. intro e. destruct (N.ltb_spec (r - gc_depth) (pe_round e)); destruct (N.leb_spec (pe_round e + gc_depth) r); cbn; auto; lia.
   Qed.
@@ -163,7 +163,7 @@ Section Thms.
   Lemma retry_list_in now p d :
     In d (retry_list delay now p) <-> exists e, In e p /\ pe_digest e = d /\ pe_time e + delay < now.
   Proof.
-    unfold retry_list, ms_retry_due. rewrite in_map_iff. split.
+    unfold retry_list, ms_retry_due, g_ms_retry_due. rewrite in_map_iff. split.
     - intros [e [He H]]. apply filter_In in H. destruct H as [H1 H2]. apply N.ltb_lt in H2. eauto.
     - intros [e [H1 [H2 H3]]]. exists e. split; [exact H2|]. apply filter_In. split; [exact H1|]. apply N.ltb_lt. exact H3.
   Qed.
